@@ -78,7 +78,7 @@ class C05(CheckBase):
                 pass
         return {"property": "C05", "schema": it["name"], "schema_def": it["sd"],
                 "model": {"header": pm.default_header(core.rng(seed, "C05", "hdr", j), it["name"], rich=False), "insts": insts or []},
-                "render": {"p_ws": r.choice([0, 0.1]), "p_cmt_between": r.choice([0, 0.2]), "p_cmt_in": 0, "sections": "hif", "spell": r.choice([None] * 6 + [{"id_pad": 4}, {"id_pad": 9, "plus_int": True}, {"plus_int": True}, {"zero_pad": True}, {"zero_pad": True, "id_pad": 3}]), "eol": r.choice(["\n"] * 7 + ["", " ", "\r\n"]),
+                "render": {"p_ws": r.choice([0, 0.1]), "p_cmt_between": r.choice([0, 0.2]), "p_cmt_in": 0, "sections": "hif", "spell": r.choice([None] * 6 + [{"id_pad": 4}, {"id_pad": 9, "plus_int": True}, {"id_pad": 25}, {"plus_int": True}, {"zero_pad": True}, {"zero_pad": True, "id_pad": 3}]), "eol": r.choice(["\n"] * 7 + ["", " ", "\r\n"]),
                            "seed": core.derive(seed, "C05", "render", j)},
                 "working": r.random() < 0.3}
 
